@@ -288,6 +288,15 @@ class Prop(BaseProp):
                 want = ('some',) + self.canon_dv(to_dv(c['arg'], mkty(c['sub'], c['n'])), None)
                 if impl != want:
                     return Violation('counterexample', 'widening %s to %s and narrowing back is not the identity' % (c['sub'], c['sup']), case=self.describe(c), expected=want, obtained=impl)
+        if op in ('from_superset', 'from_superset_unchecked') and c['kind'] == 'pair' and impl != ('none',):
+            # narrowing returns the per-part rounded value, presence kept (checked and unchecked route alike)
+            tsup = mkty(c['sup'], c['n'])
+            wsub, wsup = mkty(c['sub'], c['n']).leaf().width, tsup.leaf().width
+            re, parts = to_dv(c['arg'], tsup)
+            f = (lambda b: narrow32[b]) if (wsup == 64 and wsub == 32) else (lambda b: b)
+            want = (('some',) if op == 'from_superset' else ('val',)) + self.canon_dv((f(re), [None if q is None else [f(e) for e in q] for q in parts]), None)
+            if impl != want:
+                return Violation('counterexample', '%s %s -> %s does not return the per-part rounded value' % (op, c['sup'], c['sub']), case=self.describe(c), expected=want, obtained=impl)
         if op == 'from_superset' and impl == ('none',):
             return Violation('counterexample', 'checked narrowing %s -> %s fails although every part is a float (is_in_subset is true)' % (c['sup'], c['sub']),
                              case=self.describe(c), expected='some', obtained='none')
